@@ -60,6 +60,8 @@ def replay(ob):
 
     sec = ob.id.split(".")[0]
     fails = []
+    if sec == "audit":
+        fails = N.localize() or N.clean()
     if sec == "localize":
         fails = N.localize()
     elif sec in ("clean", "cluster"):
